@@ -1,1 +1,275 @@
-/- C05: property theorems (not yet built). -/
+/- C05 — JSON manifestation is well-formed and faithful.
+   Property theorems only (helper lemmas: Proofs/Escape.lean, Proofs/Json.lean, Proofs/JsonCanon.lean).
+
+   Model: `Escape.escape` (the table-driven loop of `escape_string_json_buf`), `Json.canon`
+   (`obj.iter()`: visible fields, ascending keys; `Val::Func` arm), `Json.wVal`
+   (`manifest_json_ex_buf`, four modes, caller-supplied padding/newline/key_val_sep).
+   Spec: `Json.read` — an RFC 8259 reader written independently (Model/JsonR.lean).
+   Numbers: the writer prints a double with Rust's `Display for f64`; that printer is the
+   parameter `fmt`, and `NumOK fmt d` ("the token for `d` is a JSON number that the reference
+   reader rounds back to `d`") is a hypothesis, validated per case by the correspondence run. -/
+import JrsVerif.Proofs.JsonCanon
+
+namespace JrsVerif.Json
+open JrsVerif.Escape JrsVerif.Generated.Escape
+
+set_option linter.unusedSimpArgs false
+
+/-! ## strings -/
+
+/-- C05.1  the extracted 256-row table is exactly the RFC 8259 table: `u` for the control bytes
+    without a short form, the letters for `\b \t \n \f \r " \`, 0 (= copy) for everything else -/
+theorem escape_table_ok (b : UInt8) : row b = specRow b := row_spec b
+
+/-- the table has one row per byte (the Rust index `ESCAPE[byte as usize]` cannot go out of range) -/
+theorem escape_table_size : ESCAPE.size = 256 := table_size
+
+/-- C05.2a the loop (run copying with `start`/`i`, in-place append to the caller's buffer) never
+    reaches `unreachable!()` and produces quote · per-byte escapes · quote after the old buffer -/
+theorem escape_total (value buf : List UInt8) :
+    escapeBuf value buf = some (buf ++ 0x22 :: (value.flatMap specEsc ++ [0x22])) :=
+  escapeBuf_spec value buf
+
+/-- C05.2b round trip for every byte string (in particular every UTF-8 string): an independent
+    string-token decoder reads the escaped text back as the same bytes — hence the same code
+    points — and the token ends exactly where the writer stopped (`rest` is untouched) -/
+theorem decode_escape (s rest t : List UInt8) (h : escape s = some t) :
+    pString (t ++ rest) = some (s, rest) := by
+  have : t = escapeD s := by simp [escapeD, h]
+  rw [this]; exact pString_escapeD s rest
+
+/-- C05.2c well-formedness of the token: quotes at both ends, no raw control byte inside, and
+    every byte the escaper adds is ASCII while bytes ≥ 0x80 are copied unchanged (so the unsafe
+    byte-level write keeps the buffer valid UTF-8) -/
+theorem escape_wellformed (s t : List UInt8) (h : escape s = some t) :
+    ∃ body, t = 0x22 :: (body ++ [0x22]) ∧ (∀ x ∈ body, 0x20 ≤ x) ∧
+      body = s.flatMap specEsc ∧
+      (∀ b ∈ s, 0x80 ≤ b → specEsc b = [b]) ∧ (∀ b ∈ s, b < 0x80 → ∀ x ∈ specEsc b, x < 0x80) := by
+  refine ⟨s.flatMap specEsc, ?_, ?_, rfl, fun b _ => specEsc_high b, fun b _ => specEsc_ascii b⟩
+  · have := escape_spec s; rw [h] at this; exact Option.some.inj this
+  · intro x hx
+    obtain ⟨b, _, hb⟩ := List.mem_flatMap.mp hx
+    exact specEsc_safe b x hb
+
+/-- C05.2d the same at the level of Unicode scalar values: escaping the UTF-8 encoding of a string
+    acts character by character — an ASCII character becomes its escape, every other character
+    keeps its own UTF-8 bytes — so the emitted token is valid UTF-8 and denotes the same code points -/
+theorem escape_utf8 (cs : List Nat) (h : ∀ c ∈ cs, c < 0x110000) :
+    escape (utf8s cs) = some (0x22 :: (cs.flatMap (fun c => if c < 0x80 then specEsc (UInt8.ofNat c) else utf8 c) ++ [0x22])) := by
+  rw [escape_spec]
+  congr 2
+  congr 1
+  induction cs with
+  | nil => rfl
+  | cons c tl ih =>
+    have ih' := ih (fun x hx => h x (by simp [hx]))
+    simp only [utf8s, List.flatMap_cons, List.flatMap_append] at ih' ⊢
+    rw [ih']
+    congr 1
+    by_cases hc : c < 0x80
+    · simp [hc, utf8]
+    · simp only [hc, if_false]
+      exact flatMap_id_of_high _ (utf8_high c (by omega) (h c (by simp)))
+
+/-! ## structure -/
+
+/-- C05.3  for every formatting mode whose padding/newline are whitespace and whose separator is
+    `ws* : ws*`, every value and every starting indentation: the reference reader returns exactly
+    the value that was written (same nesting, same member order, strings byte for byte, numbers
+    bit for bit), under the numeric-token hypothesis for the numbers that occur in it. -/
+theorem read_write (o : Opts) (ho : WsOpts o) (fmt : Nat → List UInt8) (j : J) (hn : NumsOK fmt j) :
+    read (wVal o fmt [] j) = some j := by
+  obtain ⟨b, r, hb, hs⟩ := wVal_head o fmt [] j hn
+  have hws : isWs b = false := by
+    simp only [startOK, Bool.and_eq_true, Bool.not_eq_true'] at hs; exact hs.1
+  have hsz := size_le o fmt j hn []
+  have := pVal_wVal o ho fmt j hn ((wVal o fmt [] j).length + 1) (by omega) [] allWs_nil [] rfl
+  simp only [List.append_nil] at this
+  unfold read
+  rw [hb, skipWs_cons b r hws, ← hb, this]
+  rfl
+
+/-- the same inside any context: a written value followed by anything that does not continue a
+    number token is read back and the rest is left in place (used for embedding in YAML streams) -/
+theorem read_write_prefix (o : Opts) (ho : WsOpts o) (fmt : Nat → List UInt8) (j : J)
+    (hn : NumsOK fmt j) (cur rest : List UInt8) (hc : AllWs cur) (hr : noNumHead rest = true) :
+    pVal (size j) (wVal o fmt cur j ++ rest) = some (j, rest) :=
+  pVal_wVal o ho fmt j hn (size j) (Nat.le_refl _) cur hc rest hr
+
+/-- the built-in modes meet the whitespace hypothesis: minified, default (4 spaces), CLI with any
+    padding count, `std.toString`/`"" + v` -/
+theorem wsOpts_minify : WsOpts minifyOpts :=
+  ⟨allWs_of_all _ (by decide), allWs_of_all _ (by decide), ⟨[], [], allWs_nil, allWs_nil, rfl⟩⟩
+
+theorem wsOpts_default : WsOpts defaultOpts :=
+  ⟨allWs_of_all _ (by decide), allWs_of_all _ (by decide), ⟨[], [0x20], allWs_nil, allWs_sp, rfl⟩⟩
+
+theorem wsOpts_toString : WsOpts toStringOpts :=
+  ⟨allWs_of_all _ (by decide), allWs_of_all _ (by decide), ⟨[], [0x20], allWs_nil, allWs_sp, rfl⟩⟩
+
+theorem wsOpts_cli (n : Nat) : WsOpts (cliOpts n) := by
+  unfold cliOpts
+  split
+  · exact wsOpts_minify
+  · refine ⟨?_, allWs_of_all cliNewline (by decide), ⟨[], [0x20], allWs_nil, allWs_sp, rfl⟩⟩
+    intro x hx
+    have : x = 0x20 := by simpa using (List.mem_replicate.mp hx).2
+    subst this; decide
+
+/-- `std.manifestJsonEx(v, indent, newline, key_val_sep)` with whitespace `indent`/`newline` and a
+    separator of the form `ws* : ws*` (the defaults `"\n"`, `": "` included) -/
+theorem wsOpts_std (indent newline a b : List UInt8) (hi : AllWs indent) (hn : AllWs newline)
+    (ha : AllWs a) (hb : AllWs b) : WsOpts (stdOpts indent newline (a ++ 0x3A :: b)) :=
+  ⟨hi, hn, ⟨a, b, ha, hb, rfl⟩⟩
+
+/-- C05.3 for `manifest`: what is emitted for a jsonnet value reads back as its canonical JSON
+    value (visible fields only, ascending keys) -/
+theorem manifest_read (o : Opts) (ho : WsOpts o) (fmt : Nat → List UInt8) (v : MV) (j : J)
+    (hc : canon v = some j) (hn : NumsOK fmt j) :
+    ∃ t, manifest o fmt v = some t ∧ read t = some j :=
+  ⟨wVal o fmt [] j, by simp [manifest, hc], read_write o ho fmt j hn⟩
+
+/-- `std.toString` / string concatenation: a top-level string is passed through unchanged … -/
+theorem toString_str (fmt : Nat → List UInt8) (s : List UInt8) :
+    toStringManifest fmt (.str s) = some s := rfl
+
+/-- … and every other value is JSON in the ToString mode and reads back -/
+theorem toString_read (fmt : Nat → List UInt8) (v : MV) (j : J) (hs : ∀ s, v ≠ .str s)
+    (hc : canon v = some j) (hn : NumsOK fmt j) :
+    ∃ t, toStringManifest fmt v = some t ∧ read t = some j := by
+  have : toStringManifest fmt v = manifest toStringOpts fmt v := by
+    cases v <;> first | rfl | exact absurd rfl (hs _)
+  rw [this]
+  exact manifest_read toStringOpts wsOpts_toString fmt v j hc hn
+
+/-! ## objects: key order, hidden fields; functions -/
+
+/-- C05.3 (key order) at every depth the members of a manifested object are in ascending
+    byte-lexicographic (= code point) key order -/
+theorem canon_sorted (v : MV) (j : J) (h : canon v = some j) : Sorted j := canon_sorted_aux v j h
+
+/-- with distinct visible field names (always the case for a jsonnet object) the manifested
+    members are in strictly ascending key order and are a permutation of the visible names -/
+theorem canon_keys_strict (fs : List (List UInt8 × Bool × MV)) (kvs : List (List UInt8 × J))
+    (h : canon (.obj fs) = some (.obj kvs))
+    (hd : ((fs.filter (fun f => !f.2.1)).map (·.1)).Nodup) :
+    KeysStrict kvs ∧ (kvs.map (·.1)).Perm ((fs.filter (fun f => !f.2.1)).map (·.1)) := by
+  simp only [canon, Option.map_eq_some_iff, J.obj.injEq] at h
+  obtain ⟨raw, hraw, rfl⟩ := h
+  have hk := keys_canonF fs raw hraw
+  have hp := keys_sortKV raw
+  rw [hk] at hp
+  exact ⟨strict_of_asc_nodup _ (sortKV_asc raw) (hp.nodup_iff.mpr hd), hp⟩
+
+/-- C05.3 (hidden fields) the members of a manifested object are exactly the visible fields:
+    same number, and a key is present iff the source has a visible field of that name -/
+theorem canon_hidden_omitted (fs : List (List UInt8 × Bool × MV)) (kvs : List (List UInt8 × J))
+    (h : canon (.obj fs) = some (.obj kvs)) :
+    kvs.length = (fs.filter (fun f => !f.2.1)).length ∧
+    ∀ k, (∃ j, (k, j) ∈ kvs) ↔ (∃ v, (k, false, v) ∈ fs) := by
+  simp only [canon, Option.map_eq_some_iff, J.obj.injEq] at h
+  obtain ⟨raw, hraw, rfl⟩ := h
+  have key : ∀ (fs : List (List UInt8 × Bool × MV)) (raw : List (List UInt8 × J)),
+      canonF fs = some raw →
+      raw.length = (fs.filter (fun f => !f.2.1)).length ∧
+      ∀ k, (∃ j, (k, j) ∈ raw) ↔ (∃ v, (k, false, v) ∈ fs) := by
+    intro fs
+    induction fs with
+    | nil => intro raw h; simp [canonF] at h; subst h; simp
+    | cons hd tl ih =>
+      obtain ⟨k0, hidden, v0⟩ := hd
+      intro raw h
+      simp only [canonF] at h
+      cases hidden with
+      | true =>
+        simp at h
+        obtain ⟨h1, h2⟩ := ih raw h
+        refine ⟨by simpa using h1, fun k => ?_⟩
+        rw [h2 k]; simp
+      | false =>
+        simp only [Bool.false_eq_true, if_false] at h
+        cases hx : canon v0 with
+        | none => simp [hx] at h
+        | some j0 =>
+          cases ht : canonF tl with
+          | none => simp [hx, ht] at h
+          | some raw' =>
+            simp [hx, ht] at h; subst h
+            obtain ⟨h1, h2⟩ := ih raw' ht
+            refine ⟨by simp [h1], fun k => ?_⟩
+            constructor
+            · rintro ⟨j, hj⟩
+              rcases List.mem_cons.mp hj with hj | hj
+              · obtain ⟨rfl, rfl⟩ := Prod.mk.inj hj
+                exact ⟨v0, by simp⟩
+              · obtain ⟨v, hv⟩ := (h2 k).mp ⟨j, hj⟩
+                exact ⟨v, by simp [hv]⟩
+            · rintro ⟨v, hv⟩
+              rcases List.mem_cons.mp hv with hv | hv
+              · obtain ⟨rfl, _, rfl⟩ : k = k0 ∧ True ∧ v = v0 := by
+                  have := Prod.mk.inj hv; exact ⟨this.1, trivial, (Prod.mk.inj this.2).2⟩
+                exact ⟨j0, by simp⟩
+              · obtain ⟨j, hj⟩ := (h2 k).mpr ⟨v, hv⟩
+                exact ⟨j, by simp [hj]⟩
+  obtain ⟨h1, h2⟩ := key fs raw hraw
+  refine ⟨by rw [length_sortKV, h1], fun k => ?_⟩
+  rw [← h2 k]
+  constructor
+  · rintro ⟨j, hj⟩; exact ⟨j, (mem_sortKV raw _).mp hj⟩
+  · rintro ⟨j, hj⟩; exact ⟨j, (mem_sortKV raw _).mpr hj⟩
+
+/-- C05.4  a value is rejected ("tried to manifest function") exactly when a function sits in a
+    visited position; in that case nothing is emitted, in every mode -/
+theorem function_rejected (o : Opts) (fmt : Nat → List UInt8) (v : MV) :
+    manifest o fmt v = none ↔ HasFunc v := by
+  simp [manifest, func_aux v]
+
+/-! ## non-vacuity -/
+
+/-- a number printer for the example: `-0`, `1.5`, `9007199254740993` is not a double so
+    2^53 + 2, and the largest double in positional notation is left to the correspondence run -/
+def exFmt (d : Nat) : List UInt8 :=
+  if d = 0x8000000000000000 then [0x2D, 0x30]                  -- -0
+  else if d = 0x3FF8000000000000 then [0x31, 0x2E, 0x35]       -- 1.5
+  else if d = 0x4340000000000001 then                          -- 2^53 + 2
+    [0x39, 0x30, 0x30, 0x37, 0x31, 0x39, 0x39, 0x32, 0x35, 0x34, 0x37, 0x34, 0x30, 0x39, 0x39, 0x34]
+  else if d = 0x0000000000000001 then                          -- 5e-324 written with an exponent
+    [0x35, 0x65, 0x2D, 0x33, 0x32, 0x34]
+  else [0x30]
+
+/-- U+0000, `"`, `\`, U+007F, U+2028 (E2 80 A8), U+1F600 (F0 9F 98 80) -/
+def exStr : List UInt8 := [0x00, 0x22, 0x5C, 0x7F, 0xE2, 0x80, 0xA8, 0xF0, 0x9F, 0x98, 0x80]
+
+def exVal : J :=
+  .obj [([0x61], .arr [.num 0x8000000000000000, .num 0x3FF8000000000000, .num 0x4340000000000001,
+                       .num 0x0000000000000001, .num 0]),
+        (exStr, .obj []), ([0x7A], .arr [.arr [], .str exStr, .null, .bool true])]
+
+theorem exFmt_ok : NumsOK exFmt exVal := by
+  have h : ∀ d ∈ [0x8000000000000000, 0x3FF8000000000000, 0x4340000000000001, 1, 0], NumOK exFmt d := by
+    intro d hd
+    simp only [List.mem_cons, List.not_mem_nil, or_false] at hd
+    rcases hd with rfl | rfl | rfl | rfl | rfl
+    all_goals exact ⟨⟨_, _, rfl, by decide⟩, by decide, by decide +kernel⟩
+  simp only [exVal, NumsOK, NumsOKO, NumsOKL, and_true, true_and]
+  exact ⟨h _ (by simp), h _ (by simp), h _ (by simp), h _ (by simp), h _ (by simp)⟩
+
+/-- the hypotheses of `read_write` are met by a value with control/quote/backslash/DEL/U+2028/
+    astral characters (also as a key), `-0`, an integer beyond 2^53, the smallest subnormal and
+    nested empty containers, in the default and the minified mode -/
+example : read (wVal defaultOpts exFmt [] exVal) = some exVal ∧
+          read (wVal minifyOpts exFmt [] exVal) = some exVal :=
+  ⟨read_write _ wsOpts_default _ _ exFmt_ok, read_write _ wsOpts_minify _ _ exFmt_ok⟩
+
+/-- the distinct-names hypothesis of `canon_keys_strict` on an object with a hidden field -/
+example : (([([0x62], false, MV.num 0), ([0x61], true, MV.func), ([0x41], false, MV.null)].filter
+    (fun f => !f.2.1)).map (·.1)).Nodup := by decide
+
+/-- a hidden field holding a function does not prevent manifestation; a visible one does -/
+example : canon (.obj [([0x62], false, .num 0), ([0x61], true, .func)]) = some (.obj [([0x62], .num 0)]) ∧
+          HasFunc (.obj [([0x62], false, .arr [.func])]) := by
+  constructor
+  · simp [canon, canonF, sortKV, insertKV]
+  · simp [HasFunc, HasFuncF, HasFuncL]
+
+end JrsVerif.Json
